@@ -36,8 +36,12 @@ CcXor(ks, d, id) ==
       al2 == IF d = "" THEN al ELSE [CcAny(ks, d, al.id) EXCEPT !.gen = TRUE]
   IN WithDflt(MkAtLeast(2, << al2, am >>, id, 0, "Xor"), d)
 
+\* a compound may be pre-fixed by passing a variable with constant bounds (recipe field f: -1 = free, 0 / 1 = fixed)
+PreFix(m, f) == IF f = -1 THEN m ELSE [m EXCEPT !.lo = f, !.hi = f]
+RECURSIVE Mk0(_)
 RECURSIVE Mk(_)
-Mk(r) ==
+Mk(r) == IF IsLeafR(r) THEN Mk0(r) ELSE PreFix(Mk0(r), r.f)
+Mk0(r) ==
   IF IsLeafR(r) THEN Atom(r.id, r.lo, r.hi)
   ELSE LET ks == [ i \in DOMAIN r.a |-> Mk(r.a[i]) ]
            wrap(m) == IF IsAtom(m) THEN MkAtLeast(1, <<m>>, "", 0, "All") ELSE m
@@ -74,6 +78,7 @@ TF(r, a) ==
             [] r.c = "Cfg"     -> IF cnt = Len(t) THEN 1 ELSE 0
 RECURSIVE Documented(_)
 Documented(r) == IsLeafR(r) \/ ( /\ \A i \in DOMAIN r.a : Documented(r.a[i])
+                                 /\ r.f = -1
                                  /\ (r.c = "AtLeast" => r.v >= 1 /\ r.s \in {0, 1})
                                  /\ (r.c = "AtMost" => r.v >= 0) )
 
